@@ -467,6 +467,20 @@ SAMPLES = [
 ]
 
 
+# documented canonicalisations of fparser1's printers (explicit KIND=/LEN=, parentheses around a unit, optional commas, empty argument list)
+CANONICAL = {
+    ("ComputedGoto", "go to (10, 20, 30), i + f(j)"): "go to (10, 20, 30) i + f(j)",
+    ("Flush", "flush 10"): "flush (10)",
+    ("Backspace", "backspace 10"): "backspace (10)",
+    ("Data", "data a, b /1, 2/, c(1:2) /2*0/"): "data a, b /1, 2/ c(1:2) /2*0/",
+    ("Real", "real(8), parameter :: pi = acos(-1.0_8), e(2) = (/1.0, 2.0/)"): "real(kind=8), parameter :: pi = acos(-1.0_8), e(2) = (/1.0, 2.0/)",
+    ("Complex", "complex(kind(1d0)) :: z = (1.0, 2.0)"): "complex(kind=kind(1d0)) :: z = (1.0, 2.0)",
+    ("Character", "character*(n+1) a, b*(2*(m)), c*8"): "character(len=n+1) a, b*(2*(m)), c*8",
+    ("Subroutine", "subroutine t"): "subroutine t()",
+    ("Enum", "enum, bind(c)"): "enum, bind(c)",
+}
+
+
 def roundtrip_rule(m, rid, floor=90):
     r = RuleResult(rid, "fparser1 statement round trip by interpretation: for %d sample lines, process_item and the printer are interpreted on "
                         "a model of the reader item; the class accepts the line, every literal and parenthesised group re-appears in the "
@@ -498,6 +512,10 @@ def roundtrip_rule(m, rid, floor=90):
         def run(text):
             st = make_stmt(world, key, text, cons, label, parent)
             world.ev.steps = 0
+            # the parser offers a line to a class only if the class-level `match` pattern accepts its tokenised form
+            pat = one_taint.class_match_pattern(m, key)
+            if pat is not None and not re.compile(pat[0], pat[1]).match(st.fields["item"].fields["get_line"]()):
+                return None, st
             st.get(world.ev, "process_item")()
             if st.fields.get("isvalid") is not True or st.fields.get("ignore"):
                 return None, st
@@ -519,6 +537,16 @@ def roundtrip_rule(m, rid, floor=90):
             continue
         if not isinstance(out1, str):
             r.undet("%s: the printer gave %r" % (ident, type(out1).__name__))
+            continue
+        # token level: apart from blanks, letter case and an optional '::', the printed statement is the source statement -- or the
+        # documented canonical form listed for that sample
+        def norm(t):
+            return squeeze(t).lower().replace("::", "")
+        want_text = CANONICAL.get((cname, line), line)
+        if norm(out1) != norm(want_text):
+            r.ob(False)
+            r.fail("%s|tokens" % ident, "fparser1 %s: %r is printed as %r; apart from blanks, case and '::' the text should be %r: tokens "
+                   "of the statement are dropped, added or changed" % (cname, line, out1, want_text), m.class_loc(key))
             continue
         sq = squeeze(out1)
         lost = [p for p in literals_and_groups(line) if squeeze(p) not in sq and squeeze(p).lower() not in sq.lower()]
